@@ -289,45 +289,55 @@ Proof.
   rewrite (last_indep_nonempty (c :: t) d c) by discriminate. exact H.
 Qed.
 
+Definition ext_free (fixed : bool) (n row : str) : Prop :=
+  (if fixed then contains s_extend_here n else contains s_extend_here row) = false.
+
 (* _get_tag_name on a written starred row *)
-Lemma get_tag_name_star lvl n A d :
+Lemma get_tag_name_star fixed lvl n A d :
   name_ok n = true -> none_of brackets A = true -> desc_okP d ->
-  contains s_extend_here (row_star (S lvl) n (extras_of A d)) = false ->
+  ext_free fixed n (row_star (S lvl) n (extras_of A d)) ->
   contains s_zw (row_star (S lvl) n (extras_of A d)) = false ->
-  get_tag_name (row_star (S lvl) n (extras_of A d))
+  get_tag_name fixed (row_star (S lvl) n (extras_of A d))
   = (Some n, Z.of_nat (S lvl + (S (length n) + (if nonempty (extras_of A d) then 1 else 0)))).
 Proof.
   intros Hn HA Hd Hx Hz.
   destruct (name_ok_parts n Hn) as (Hne & Hws & Hb & _ & Hap & _ & _).
   assert (Hnn : n <> []) by (destruct n; [discriminate | discriminate]).
-  unfold get_tag_name. rewrite Hx. rewrite (remove_all_id _ _ Hz).
-  unfold row_star.
   assert (Ht : tail_match (rest_of (extras_of A d))
                = Some (if nonempty (extras_of A d) then 1 else 0)).
   { destruct (nonempty (extras_of A d)) eqn:E.
     - apply tail_match_rest; assumption.
     - unfold rest_of. rewrite E. reflexivity. }
-  rewrite (search_stars lvl (ch_space :: n) (rest_of (extras_of A d)) 0%N
-                        (if nonempty (extras_of A d) then 1 else 0)).
-  - unfold sub. replace (S lvl + length (ch_space :: n) - S lvl) with (length (ch_space :: n)) by lia.
-    rewrite skipn_stars, firstn_app_exact. rewrite strip_space_cons, (strip_id n Hws). rewrite Hne.
-    reflexivity.
-  - discriminate.
-  - cbn [hd]. discriminate.
-  - rewrite last_cons_nonempty by exact Hnn. apply last_nonws_of_no_outer; assumption.
-  - unfold none_of in *. cbn [forallb]. rewrite Hb. reflexivity.
-  - rewrite memb_cons, Hap. reflexivity.
-  - exact Ht.
+  assert (Hs : search_from (row_star (S lvl) n (extras_of A d)) 0
+               = Some (S lvl, length (ch_space :: n),
+                       S lvl + (length (ch_space :: n) + (if nonempty (extras_of A d) then 1 else 0)))).
+  { unfold row_star. apply (search_stars lvl (ch_space :: n) (rest_of (extras_of A d)) 0%N).
+    - discriminate.
+    - cbn [hd]. discriminate.
+    - rewrite last_cons_nonempty by exact Hnn. apply last_nonws_of_no_outer; assumption.
+    - unfold none_of in *. cbn [forallb]. rewrite Hb. reflexivity.
+    - rewrite memb_cons, Hap. reflexivity.
+    - exact Ht. }
+  assert (Hsub : sub (row_star (S lvl) n (extras_of A d)) (S lvl) (S lvl + length (ch_space :: n)) = ch_space :: n).
+  { unfold sub, row_star. replace (S lvl + length (ch_space :: n) - S lvl) with (length (ch_space :: n)) by lia.
+    rewrite skipn_stars. apply firstn_app_exact. }
+  unfold get_tag_name. rewrite (remove_all_id _ _ Hz). rewrite Hs, Hsub.
+  rewrite strip_space_cons, (strip_id n Hws), Hne.
+  unfold ext_free in Hx. destruct fixed; cbn [negb andb].
+  - assert (Hc : contains s_extend_here (ch_space :: n) = false).
+    { cbn [contains]. rewrite Hx. reflexivity. }
+    rewrite Hc. reflexivity.
+  - rewrite Hx. reflexivity.
 Qed.
 
 Definition kept (kv : str * aval) : bool := match snd kv with AStr [] => false | _ => true end.
 
-Lemma create_entry_eval R n idx A idx2 Dtxt idx3 a' :
-  get_tag_name R = (Some n, idx) -> nonempty n = true ->
+Lemma create_entry_eval fixed R n idx A idx2 Dtxt idx3 a' :
+  get_tag_name fixed R = (Some n, idx) -> nonempty n = true ->
   get_line_section R idx ch_lbrace ch_rbrace = (Some A, idx2) ->
   parse_attribute_string A = Ok a' ->
   get_line_section R idx2 ch_lbrack ch_rbrack = (Some Dtxt, idx3) ->
-  create_entry R (Some n)
+  create_entry fixed R (Some n)
   = Ok (false, Some (n, filter kept a', match Dtxt with [] => None | _ => Some (strip Dtxt) end)).
 Proof.
   intros H1 Hn H2 H3 H4. unfold create_entry. rewrite H1.
@@ -440,17 +450,17 @@ Qed.
 
 Unset Default Timeout.
 
-Lemma create_entry_star lvl n A d a' :
+Lemma create_entry_star fixed lvl n A d a' :
   name_ok n = true -> none_of brackets A = true -> desc_okP d ->
   parse_attribute_string A = Ok a' -> filter kept a' = a' ->
-  contains s_extend_here (row_star (S lvl) n (extras_of A d)) = false ->
+  ext_free fixed n (row_star (S lvl) n (extras_of A d)) ->
   contains s_zw (row_star (S lvl) n (extras_of A d)) = false ->
-  create_entry (row_star (S lvl) n (extras_of A d)) (Some n) = Ok (false, Some (n, a', d)).
+  create_entry fixed (row_star (S lvl) n (extras_of A d)) (Some n) = Ok (false, Some (n, a', d)).
 Proof.
   intros Hn HA Hd Hp Hk Hx Hz.
   destruct (sections_star lvl n A d Hn HA Hd) as (idx2 & idx3 & S1 & S2).
   destruct (name_ok_parts n Hn) as (Hne & _).
-  rewrite (create_entry_eval _ n _ A idx2 _ idx3 a' (get_tag_name_star lvl n A d Hn HA Hd Hx Hz) Hne S1 Hp S2).
+  rewrite (create_entry_eval fixed _ n _ A idx2 _ idx3 a' (get_tag_name_star fixed lvl n A d Hn HA Hd Hx Hz) Hne S1 Hp S2).
   rewrite Hk. do 4 f_equal.
   destruct d as [D|]; [|reflexivity].
   destruct Hd as (Hdn & Hdw & _). destruct D as [|c D']; [discriminate|].
@@ -458,16 +468,16 @@ Proof.
 Qed.
 
 (* the part of read_tag_line that follows the nowiki removal *)
-Definition read_row (fatal0 : bool) (row : str) : res (option parsed) :=
+Definition read_row (fixed fatal0 : bool) (row : str) : res (option parsed) :=
   match row with
   | [] => if fatal0 then Exn HedFileError else Ok None
   | _ =>
       let root := startswith s_root row in
       let* level := if root then Ok 0 else get_tag_level row in
-      let '(tag_name, _) := get_tag_name row in
+      let '(tag_name, _) := get_tag_name fixed row in
       match tag_name with
       | Some (c :: nm) =>
-          let* r := create_entry row (Some (c :: nm)) in
+          let* r := create_entry fixed row (Some (c :: nm)) in
           match r with
           | (false, Some (n, a, d)) =>
               if fatal0 then Exn HedFileError else Ok (Some (mkParsed root level n a d))
@@ -477,9 +487,9 @@ Definition read_row (fatal0 : bool) (row : str) : res (option parsed) :=
       end
   end.
 
-Lemma read_tag_line_unfold line :
-  read_tag_line line
-  = let '(fatal0, row) := remove_nowiki_tag_from_line (strip line) in read_row fatal0 row.
+Lemma read_tag_line_unfold fixed line :
+  read_tag_line fixed line
+  = let '(fatal0, row) := remove_nowiki_tag_from_line (strip line) in read_row fixed fatal0 row.
 Proof. reflexivity. Qed.
 
 Lemma get_tag_level_star lvl n E : get_tag_level (row_star (S lvl) n E) = Ok (S lvl).
@@ -493,10 +503,10 @@ Proof.
   rewrite Hl. reflexivity.
 Qed.
 
-Lemma read_row_eval R t lvl n a d idx :
-  R = ch_star :: t -> get_tag_level R = Ok lvl -> get_tag_name R = (Some n, idx) ->
-  nonempty n = true -> create_entry R (Some n) = Ok (false, Some (n, a, d)) ->
-  read_row false R = Ok (Some (mkParsed false lvl n a d)).
+Lemma read_row_eval fixed R t lvl n a d idx :
+  R = ch_star :: t -> get_tag_level R = Ok lvl -> get_tag_name fixed R = (Some n, idx) ->
+  nonempty n = true -> create_entry fixed R (Some n) = Ok (false, Some (n, a, d)) ->
+  read_row fixed false R = Ok (Some (mkParsed false lvl n a d)).
 Proof.
   intros HR Hl Hg Hn Hc. destruct n as [|c nm]; [discriminate|].
   subst R. unfold read_row. unfold str in *.
@@ -504,12 +514,12 @@ Proof.
   rewrite Hl. cbn [bind]. rewrite Hg. cbv beta iota. rewrite Hc. reflexivity.
 Qed.
 
-Lemma read_row_star lvl n A d a' :
+Lemma read_row_star fixed lvl n A d a' :
   name_ok n = true -> none_of brackets A = true -> desc_okP d ->
   parse_attribute_string A = Ok a' -> filter kept a' = a' ->
-  contains s_extend_here (row_star (S lvl) n (extras_of A d)) = false ->
+  ext_free fixed n (row_star (S lvl) n (extras_of A d)) ->
   contains s_zw (row_star (S lvl) n (extras_of A d)) = false ->
-  read_row false (row_star (S lvl) n (extras_of A d)) = Ok (Some (mkParsed false (S lvl) n a' d)).
+  read_row fixed false (row_star (S lvl) n (extras_of A d)) = Ok (Some (mkParsed false (S lvl) n a' d)).
 Proof.
   intros Hn HA Hd Hp Hk Hx Hz.
   destruct (name_ok_parts n Hn) as (Hne & _).
@@ -529,12 +539,12 @@ Proof.
 Qed.
 
 (* the reader on the row that the writer's line becomes once the nowiki wrapper is gone *)
-Lemma wiki_row_roundtrip dis lvl n a d :
+Lemma wiki_row_roundtrip fixed dis lvl n a d :
   name_ok n = true -> desc_ok d = true ->
   attr_ok a = true -> wiki_text_ok (format_tag_attributes dis a) = true ->
-  contains s_extend_here (row_star (S lvl) n (format_props_and_desc dis a d)) = false ->
+  ext_free fixed n (row_star (S lvl) n (format_props_and_desc dis a d)) ->
   contains s_zw (row_star (S lvl) n (format_props_and_desc dis a d)) = false ->
-  read_row false (row_star (S lvl) n (format_props_and_desc dis a d))
+  read_row fixed false (row_star (S lvl) n (format_props_and_desc dis a d))
   = Ok (Some (mkParsed false (S lvl) n (filter (fun kv => negb (dis (fst kv))) a) d)).
 Proof.
   intros Hn Hd Ha Hw Hx Hz. rewrite format_props_and_desc_eq in *.
@@ -836,12 +846,12 @@ Proof. unfold wiki_text_ok. intro H. apply andb_true_iff in H. tauto. Qed.
 
 (* wiki_line_roundtrip: writer (_write_tag_entry, _format_props_and_desc, flush) followed by the
    reader (strip, nowiki removal, level, name expression, sections, attribute grammar) *)
-Lemma wiki_line_roundtrip dis lvl n a d line :
+Lemma wiki_line_roundtrip fixed dis lvl n a d line :
   name_ok n = true -> desc_ok d = true ->
   attr_ok a = true -> wiki_text_ok (format_tag_attributes dis a) = true ->
   write_tag_line dis n (S lvl) a d = Some line ->
-  row_free_of_reserved line = true ->
-  read_tag_line line
+  row_free_of_reserved fixed n line = true ->
+  read_tag_line fixed line
   = Ok (Some (mkParsed false (S lvl) n (filter (fun kv => negb (dis (fst kv))) a) d)).
 Proof.
   intros Hn Hd Ha Hw Hl Hr.
@@ -859,10 +869,79 @@ Proof.
   pose proof (fatal_flushed (stars (S lvl) ++ ch_space :: n) (format_props_and_desc dis a d) Hc) as Hf.
   rewrite read_tag_line_unfold. rewrite (strip_flushed lvl n _ Hn).
   unfold row_free_of_reserved in Hr. rewrite Hrem in Hr.
-  apply andb_true_iff in Hr as [Hx Hz]. apply negb_true_iff in Hx, Hz.
+  apply andb_true_iff in Hr as [Hx Hz]. apply negb_true_iff in Hz.
+  assert (Hx' : ext_free fixed n ((stars (S lvl) ++ ch_space :: n) ++ rest_of (format_props_and_desc dis a d))).
+  { unfold ext_free. destruct fixed; apply negb_true_iff in Hx; exact Hx. }
+  clear Hx.
   unfold remove_nowiki_tag_from_line in *. cbn [fst] in Hf. rewrite Hf. rewrite Hrem.
   replace ((stars (S lvl) ++ ch_space :: n) ++ rest_of (format_props_and_desc dis a d))
     with (row_star (S lvl) n (format_props_and_desc dis a d)) in *
     by (unfold row_star; list_eq).
   apply wiki_row_roundtrip; assumption.
+Qed.
+
+(* ------------------------------------------------------------------ after the repairs (C05-F1, F3) *)
+
+Lemma rstrip_head (u : str) c v : rstrip u = c :: v -> exists t, u = c :: t.
+Proof.
+  destruct u as [|x t]; [discriminate|]. cbn [rstrip].
+  destruct (rstrip t); [destruct (isspace x); [discriminate|]|]; intro H; inversion H; eauto.
+Qed.
+
+Lemma rstrip_last_nonws (u : str) d : rstrip u = [] \/ isspace (last (rstrip u) d) = false.
+Proof.
+  induction u as [|x t IH]; [left; reflexivity|].
+  cbn [rstrip]. destruct (rstrip t) as [|y r] eqn:E.
+  - destruct (isspace x) eqn:Ex; [left; reflexivity | right; exact Ex].
+  - right. destruct IH as [IH|IH]; [discriminate|]. exact IH.
+Qed.
+
+Lemma lstrip_head_nonws (s : str) c v : lstrip s = c :: v -> isspace c = false.
+Proof.
+  induction s as [|x t IH]; [discriminate|]. cbn [lstrip].
+  destruct (isspace x) eqn:E; [exact IH|]. intro H. inversion H; subst. exact E.
+Qed.
+
+(* s.strip() never has outer white space *)
+Lemma strip_normal s : no_outer_ws (strip s) = true.
+Proof.
+  unfold strip. destruct (rstrip (lstrip s)) as [|c v] eqn:E; [reflexivity|].
+  destruct (rstrip_head _ _ _ E) as (t & Ht).
+  pose proof (lstrip_head_nonws s c t Ht) as Hc.
+  destruct (rstrip_last_nonws (lstrip s) c) as [H|H]; [congruence|].
+  rewrite E in H. unfold no_outer_ws. rewrite Hc, H. reflexivity.
+Qed.
+
+(* the repaired XML reader only yields descriptions that are non-empty and free of outer blanks:
+   the hypothesis of wiki_line_roundtrip on outer blanks is an invariant of loaded schemas *)
+Lemma xml_desc_normal text d :
+  xml_read_desc true text = Some d -> nonempty d = true /\ no_outer_ws d = true.
+Proof.
+  unfold xml_read_desc. destruct text as [|c t]; [discriminate|].
+  destruct (strip (c :: t)) as [|x r] eqn:E; [discriminate|].
+  intro H. inversion H; subst. split; [reflexivity|]. rewrite <- E. apply strip_normal.
+Qed.
+
+(* ... which the unrepaired reader did not guarantee *)
+Lemma xml_desc_not_normal_before :
+  exists text d, xml_read_desc false text = Some d /\ no_outer_ws d = false.
+Proof. exists [ch_space; 108%N], [ch_space; 108%N]. split; reflexivity. Qed.
+
+(* wiki_line_roundtrip for the code as repaired: every description the XML reader can deliver, with no
+   hypothesis on blanks and with 'extend here' allowed in descriptions and attribute values *)
+Lemma wiki_line_roundtrip_loaded dis lvl n a text line :
+  name_ok n = true -> desc_text_ok (xml_read_desc true text) = true ->
+  attr_ok a = true -> wiki_text_ok (format_tag_attributes dis a) = true ->
+  contains s_extend_here n = false ->
+  write_tag_line dis n (S lvl) a (xml_read_desc true text) = Some line ->
+  contains s_zw (remove_nowiki line) = false ->
+  read_tag_line true line
+  = Ok (Some (mkParsed false (S lvl) n (filter (fun kv => negb (dis (fst kv))) a) (xml_read_desc true text))).
+Proof.
+  intros Hn Hd Ha Hw Hx Hl Hz.
+  apply (wiki_line_roundtrip true dis lvl n a (xml_read_desc true text) line); try assumption.
+  - destruct (xml_read_desc true text) as [d|] eqn:E; [|reflexivity].
+    destruct (xml_desc_normal _ _ E) as [H1 H2]. unfold desc_ok. cbn [desc_text_ok] in Hd.
+    rewrite H1, H2, Hd. reflexivity.
+  - unfold row_free_of_reserved. rewrite Hx, Hz. reflexivity.
 Qed.
